@@ -329,7 +329,8 @@ class JsonSchemaGenerator:
                 # will count options.ignore_required in
                 required.append(name)
             elif self.output:
-                if not field.no_default and not (field.defer_default or options.defer_default):
+                if not options.no_default and not field.no_default \
+                        and not (field.defer_default or options.defer_default):
                     # if field has default, the value is required in the output data
                     # (a deferred default is not applied until the attribute is read)
                     required.append(name)
